@@ -207,8 +207,21 @@ def main(prop, tier="quick", seed=0, jobs=None):
         oid = gk[0]
         # smallest shapes / shortest paths first: they make the most readable replays
         lst.sort(key=lambda rc: (len(json.dumps(rc[0]["shape"], default=str)), len(rc[1].get("trace", []))))
+        # ... taken round-robin over the shapes (a shape whose models do not replay must not use up all
+        # attempts), shapes built for replayable models (concrete parameters) first
+        by_shape = {}
+        lst.sort(key=lambda rc: 0 if rc[1].get("refined") else 1)  # models of the real products first (stable sort)
+        for rc in lst:
+            by_shape.setdefault(json.dumps(rc[0]["shape"], sort_keys=True, default=str), []).append(rc)
+        order = sorted(by_shape, key=lambda k: (0 if '"tame_box": true' in k else 1 if '"concrete_params": true' in k else 2, len(k)))
+        picked, depth = [], 0
+        while len(picked) < 12 and any(depth < len(by_shape[k]) for k in order):
+            for k in order:
+                if depth < len(by_shape[k]) and len(picked) < 12:
+                    picked.append(by_shape[k][depth])
+            depth += 1
         done = False
-        for r, c in lst[:8]:
+        for r, c in picked:
             info = c.get("info") or {}
             module, fn = r["task"].split(".", 1)
             path = replay_file(prop, module, fn, r["shape"], c)
